@@ -82,6 +82,8 @@ def _run_case_body(ctx, L, i, scope):
         label = poison(rng, doc)
     pv, pc = classify(doc)
     info = dict(index=i, kind=label, poison_value=pv, poison_char=pc)
+    if i % 53 == 0:
+        ctx.sample(info, 4)
     cif = None
     try:
         cif = B.build_cif(L, doc)
@@ -116,7 +118,6 @@ def _run_case_body(ctx, L, i, scope):
         if cif:
             L.destroy(cif)
     ctx.drain_events(info)
-    ctx.sample(info, 4)
 
 
 
